@@ -1,4 +1,4 @@
-def J(pkg, harness, unwind=None, timeout_ms=None, max_paths=None, fork_all=False, **params):
+def J(pkg, harness, unwind=None, timeout_ms=None, max_paths=None, fork_all=False, job_timeout_s=None, **params):
     """One gosmt harness run: package path relative to the module, harness function, bounds as params."""
     j = {"pkg": pkg, "harness": harness, "params": params}
     if unwind:
@@ -9,4 +9,6 @@ def J(pkg, harness, unwind=None, timeout_ms=None, max_paths=None, fork_all=False
         j["max_paths"] = max_paths
     if fork_all:
         j["fork_all"] = True
+    if job_timeout_s:
+        j["job_timeout_s"] = job_timeout_s
     return j
